@@ -153,7 +153,7 @@ def gen(rng, tier):
             r_src = rng.random()
             if r_src < 0.2:
                 sh.append({"op": "passes", "files": {"src/Ctl%d.java" % k: spring_unit(rng) for k in range(rng.choice([1, 2]))}, "src": "spring"})
-                if rng.random() < (0.12 if tier == "quick" else 0.03):
+                if rng.random() < (0.07 if tier == "quick" else 0.03):
                     sh[-1]["cli"] = True
             elif r_src < 0.8 or not fx:
                 files = {}
@@ -163,7 +163,7 @@ def gen(rng, tier):
                     # the smallest compilation units next to the others: an empty file, blanks, a lone `;`, a lone comment
                     files["src/Tiny%d.java" % i] = rng.choice(["", "\n", " ", ";", "//", "/**/", "\ufeff".encode("utf-8").decode("utf-8") + "class B { }"])
                 sh.append({"op": "passes", "files": files, "src": "grammar"})
-                if rng.random() < (0.12 if tier == "quick" else 0.03):
+                if rng.random() < (0.07 if tier == "quick" else 0.03):
                     sh[-1]["cli"] = True        # also through the commands themselves (coca analysis | bs | api | todo | refactor), fresh processes
             else:
                 f = rng.choice(fx)
